@@ -50,7 +50,7 @@ fn main() {
             let trace = args.iter().any(|a| a == "--trace");
             common::install_panic_hook();
             common::install_logger(trace);
-            let plan = wb_plan::generate(seed, &wb_plan::GenB { shape, thorough: false });
+            let plan = wb_plan::generate(seed, &wb_plan::GenB { shape, thorough: args.iter().any(|a| a == "--thorough") });
             if args.iter().any(|a| a == "--plan") {
                 println!("{}", plan.yaml());
                 println!("{}", serde_json::to_string_pretty(&plan).unwrap());
